@@ -77,12 +77,18 @@ func (memAddr) Network() string { return "mem" }
 func (memAddr) String() string  { return "mem" }
 
 type memListener struct {
-	rec    *recorder
-	fails  *failures
-	limit  int32
-	nextID int32
-	open   int32
-	closed int32
+	rec       *recorder
+	fails     *failures
+	limit     int32
+	nextID    int32
+	open      int32
+	closed    int32
+	profile   int
+	fmu       sync.Mutex
+	frng      *vu.Rng
+	faultsOff int32
+	nTemp     int32
+	nHard     int32
 }
 
 type memConn struct {
@@ -93,10 +99,45 @@ type memConn struct {
 }
 
 var errMemClosed = errors.New("verif: listener closed")
+var errMemHard = errors.New("verif: injected permanent accept failure")
+
+// memTempErr is an injected temporary net.Error (what EMFILE / ECONNABORTED look like).
+type memTempErr struct{}
+
+func (memTempErr) Error() string   { return "verif: injected temporary accept failure" }
+func (memTempErr) Timeout() bool   { return false }
+func (memTempErr) Temporary() bool { return true }
+
+// fault decides, from the seeded fault stream, what the next Accept of the wrapped listener does:
+// 0 = hand out a connection, 1 = temporary net.Error, 2 = permanent error.
+// profile 0: no faults; 1: temporary errors only; 2: temporary and permanent errors.
+func (l *memListener) fault() int {
+	if l.profile == 0 || atomic.LoadInt32(&l.faultsOff) != 0 {
+		return 0
+	}
+	l.fmu.Lock()
+	defer l.fmu.Unlock()
+	x := l.frng.Intn(8)
+	switch {
+	case l.profile == 1 && x < 3, l.profile == 2 && x < 2:
+		atomic.AddInt32(&l.nTemp, 1)
+		return 1
+	case l.profile == 2 && x == 2:
+		atomic.AddInt32(&l.nHard, 1)
+		return 2
+	}
+	return 0
+}
 
 func (l *memListener) Accept() (net.Conn, error) {
 	if atomic.LoadInt32(&l.closed) != 0 {
 		return nil, errMemClosed
+	}
+	switch l.fault() {
+	case 1:
+		return nil, memTempErr{}
+	case 2:
+		return nil, errMemHard
 	}
 	id := atomic.AddInt32(&l.nextID, 1) - 1
 	if n := atomic.AddInt32(&l.open, 1); n > l.limit {
@@ -118,19 +159,24 @@ func (c *memConn) Close() error {
 }
 
 func gen(r *vu.Rng, i int) []string {
-	return []string{fmt.Sprintf("run listen %d %d %d %d %d", r.Range(1, 4), r.Range(1, 6), r.Range(1, 8), r.Intn(2), r.Uint64()>>1)}
+	return []string{fmt.Sprintf("run listen %d %d %d %d %d", r.Range(1, 4), r.Range(1, 6), r.Range(1, 8), r.Intn(2)+2*r.Intn(3), r.Uint64()>>1)}
 }
 
 // runListen: A acceptors each call Accept up to K times; every accepted connection is closed by
 // a closer goroutine after some yields, 40% of them a second time (half of those concurrently).
-// mode 1: the listener is closed at a random moment by another goroutine; mode 0: after all
+// mode%2 == 1: the listener is closed at a random moment by another goroutine; == 0: after all
 // acceptors are done, and after checking that all n slots are free again.
+// mode/2 = fault profile of the wrapped listener: 0 none, 1 temporary net.Errors, 2 temporary and
+// permanent errors, injected from a seeded stream; after any failed Accept the slot must be free.
 func runListen(n, A, K, mode int, s uint64, stats map[string]int) ([]event, [][2]string) {
 	if hungOnce {
 		return nil, nil
 	}
 	fails := &failures{}
-	inner := &memListener{rec: &recorder{}, fails: fails, limit: int32(n)}
+	profile := mode / 2 // fault profile of the wrapped listener (see memListener.fault)
+	mode = mode % 2
+	inner := &memListener{rec: &recorder{}, fails: fails, limit: int32(n), profile: profile,
+		frng: vu.NewRng(s ^ 0xd1b54a32d192ed03)}
 	l := netutil.LimitListener(inner, n)
 	recs := make([]*recorder, A+1)
 	st := make([]map[string]int, A+1)
@@ -161,7 +207,10 @@ func runListen(n, A, K, mode int, s uint64, stats map[string]int) ([]event, [][2
 				if err != nil {
 					rec.log("aerr %d", a)
 					st[a]["accept:err"]++
-					return
+					if err == errMemClosed {
+						return
+					}
+					continue // injected failure of the wrapped listener: the slot must have been given back
 				}
 				rec.log("acc %d", a)
 				st[a]["accept:conn"]++
@@ -219,6 +268,7 @@ func runListen(n, A, K, mode int, s uint64, stats map[string]int) ([]event, [][2
 		var pending []net.Conn
 		if mode == 0 {
 			// every slot must be free again: n more Accepts succeed without blocking
+			atomic.StoreInt32(&inner.faultsOff, 1)
 			var cs []net.Conn
 			for i := 0; i < n; i++ {
 				c, err := l.Accept()
@@ -258,6 +308,9 @@ func runListen(n, A, K, mode int, s uint64, stats map[string]int) ([]event, [][2
 			stats[k] += v
 		}
 	}
+	stats["inner:temporary-error"] += int(atomic.LoadInt32(&inner.nTemp))
+	stats["inner:permanent-error"] += int(atomic.LoadInt32(&inner.nHard))
+	stats[fmt.Sprintf("fault-profile:%d", profile)]++
 	sort.Slice(all, func(i, j int) bool { return all[i].seq < all[j].seq })
 	return all, fails.l
 }
@@ -274,7 +327,7 @@ func exec(ops []string, o *vu.Out) {
 			continue
 		}
 		n, A, K, mode, s := vu.Atoi(t[2]), vu.Atoi(t[3]), vu.Atoi(t[4]), vu.Atoi(t[5]), vu.Atou64(t[6])
-		if n < 1 || n > 64 || A < 1 || A > 64 || K < 0 || K > 1000 || mode < 0 || mode > 1 {
+		if n < 1 || n > 64 || A < 1 || A > 64 || K < 0 || K > 1000 || mode < 0 || mode > 5 {
 			o.Op(op, "bad-op")
 			continue
 		}
